@@ -46,7 +46,7 @@ def plan(pid, tier):
     if pid == "C12":
         return [hx_leg("SA", props=["C12"]), hx_leg("SB", props=["C12"]), hx_leg("LIMIT", depth=2 if q else 4)]
     if pid == "C13":
-        return [hx_leg("SD", props=["C13", "C01", "C02", "C06", "C09", "C12"], drop_world=True, **(dict(L=2, D=7) if q else dict(L=3, D=8)))] + \
+        return [hx_leg("SD", props=["C13", "C01", "C02", "C06", "C09", "C12"], drop_world=True, **(dict(L=3, D=7) if q else dict(L=3, D=9)))] + \
                ([] if q else [hx_leg("SD", props=["C13", "C01", "C02"], san="miri", miri_depth=2)])
     if pid == "C17":
         return [hx_leg("SG", features=("events",), props=["C17"])]
